@@ -1279,6 +1279,52 @@ Proof.
 Qed.
 
 (* ------------------------------------------------------------------------------------------ *)
+(** * frames from a peer: the channel readers never request more than their limit; rows with dates *)
+
+Theorem read_channel_bounded : forall limit fs,
+  (snd (read_channel limit fs) <= limit)%N /\ (fst (read_channel limit fs) <= N.of_nat (List.length fs))%N.
+Proof.
+  intros limit. induction fs as [|f fs IH]; cbn [read_channel fst snd List.length]; [split; lia|].
+  destruct f as [len avail dec|]; [|cbn [fst snd]; split; lia].
+  destruct (N.ltb limit len) eqn:El; [cbn [fst snd]; split; lia|]. apply N.ltb_ge in El.
+  destruct (negb (N.leb len avail)); [cbn [fst snd]; split; lia|].
+  destruct (negb dec); [cbn [fst snd]; split; lia|].
+  destruct (read_channel limit fs) as [d a]. cbn [fst snd] in *. destruct IH as [IH1 IH2]. split; lia.
+Qed.
+
+Lemma conn_info_requests_len : forall len avail dec, snd (read_conn_info (FFrame len avail dec)) = len.
+Proof. reflexivity. Qed.
+
+Lemma connection_obs_shape : forall info ans qs evs,
+  (match info with FFrame len _ _ => N.leb alloc_bound len | FShortLen => false end) = false ->
+  exists i a q e, connection_obs info ans qs evs = [i; zn a; zn q; zn e; 0]
+    /\ (i = 0 \/ i = 1) /\ (a <= N.of_nat (List.length ans))%N /\ (q <= N.of_nat (List.length qs))%N /\ (e <= N.of_nat (List.length evs))%N.
+Proof.
+  intros info ans qs evs Hk. unfold connection_obs.
+  assert (Ha0 : (snd (read_conn_info info) < alloc_bound)%N).
+  { destruct info as [len avail dec|]; cbn [read_conn_info snd]; [apply N.leb_gt; exact Hk|reflexivity]. }
+  destruct (read_conn_info info) as [ok a0]. cbn [snd] in Ha0.
+  destruct ok.
+  - destruct (read_channel_bounded max_buffer_size ans) as [A1 A2].
+    destruct (read_channel_bounded max_buffer_size qs) as [Q1 Q2].
+    destruct (read_channel_bounded max_buffer_size evs) as [E1 E2].
+    destruct (read_channel max_buffer_size ans) as [da aa], (read_channel max_buffer_size qs) as [dq aq], (read_channel max_buffer_size evs) as [de ae].
+    cbn [fst snd] in *. exists 1, da, dq, de. split; [|repeat split; auto].
+    replace (N.leb alloc_bound (N.max (N.max a0 aa) (N.max aq ae))) with false; [reflexivity|].
+    symmetry. apply N.leb_gt. unfold max_buffer_size, alloc_bound in *. lia.
+  - exists 0, 0%N, 0%N, 0%N. split; [|repeat split; auto; lia].
+    replace (N.leb alloc_bound a0) with false; [reflexivity|]. symmetry. apply N.leb_gt. exact Ha0.
+Qed.
+
+Theorem ingest_panics_only_beyond_calendar : forall rf md,
+  ingest_outcome rf md = OPanic -> (Z.leb rf md && Z.ltb max_calendar_ms md) = true.
+Proof.
+  intros rf md H. unfold ingest_outcome in H. destruct (Z.ltb md rf) eqn:E1; [discriminate|].
+  destruct (Z.leb md max_calendar_ms) eqn:E2; [discriminate|].
+  apply Z.ltb_ge in E1. apply Z.leb_gt in E2. apply andb_true_intro. split; [apply Z.leb_le; exact E1|apply Z.ltb_lt; exact E2].
+Qed.
+
+(* ------------------------------------------------------------------------------------------ *)
 (** * the master statement: outside the listed classes the model satisfies the property's oracle *)
 
 Lemma Forall2_map_same : forall A B C (f : A -> B) (g : A -> C) (R : B -> C -> Prop) l,
@@ -1301,7 +1347,7 @@ Proof. intros r. split; [apply verify_row_never_panics|discriminate]. Qed.
 
 Theorem run_spec_outside_known : forall c, known_C14 c = [] -> spec_C14 c (run_C14 c) = true.
 Proof.
-  intros c Hk. destruct c as [m|ms|k pok|r|rs|dm qs|dm q|aq|dp|s]; cbn [known_C14 spec_C14 run_C14] in *.
+  intros c Hk. destruct c as [m|ms|k pok|r|rs|dm qs|dm q|aq|dp|info ans qs evs|rf md|s]; cbn [known_C14 spec_C14 run_C14] in *.
   - apply (pool_run_ok [mutation_valid m] [mutate_outcome m] _ default_parallelism_pos).
     constructor; [apply mutation_step_ok|constructor].
   - apply (pool_run_ok (map mutation_valid ms) (map mutate_outcome ms) _ default_parallelism_pos).
@@ -1330,6 +1376,15 @@ Proof.
     constructor; [|constructor]. split; [apply aquery_never_panics|]. intro Hv. apply valid_aquery_executes; assumption.
   - apply (pool_run_ok [delete_valid dp] [delete_outcome dp] _ default_parallelism_pos).
     constructor; [|constructor]. split; [apply delete_never_panics|apply valid_delete_executes].
+  - apply flag_nil in Hk. destruct (connection_obs_shape info ans qs evs Hk) as (i & a & q & e & Ho & Hi & Ha & Hq & He).
+    rewrite Ho. cbn [app]. unfold zn.
+    replace (Z.eqb i 0 || Z.eqb i 1) with true by (destruct Hi; subst; reflexivity).
+    cbn [Z.eqb andb].
+    repeat (apply andb_true_intro; split); try reflexivity; apply Z.leb_le; lia.
+  - apply flag_nil in Hk.
+    apply (pool_run_ok [false] [ingest_outcome rf md] 1%N); [discriminate|].
+    constructor; [|constructor]. split; [|discriminate].
+    intro Hp. rewrite (ingest_panics_only_beyond_calendar _ _ Hp) in Hk. discriminate.
   - reflexivity.
 Qed.
 
@@ -1519,6 +1574,15 @@ Definition w_ref_filter_agg : aquery :=  (* Person(pets = null) { total: count()
 Definition w_alias_filter_agg : aquery :=  (* Person(order_by(a0 asc), a1 >= null) { a0: max(nat) a1: js->$.a ok } *)
   {| aq_sel := [ASAgg AMax FString; ASJson; ASField FBool true]; aq_search := None; aq_order := [KSel 0]; aq_first := None; aq_skip := None;
      aq_before := []; aq_after := []; aq_filters := [(KSel 1, false, ANull)]; aq_nullable := []; aq_params := [] |}.
+
+Lemma frame_witnesses_w :
+  run_C14 (CFrames (FFrame 4294967295 0 false) [] [] []) = [0; 0; 0; 0; 1; 1] /\
+  spec_C14 (CFrames (FFrame 4294967295 0 false) [] [] []) [0; 0; 0; 0; 1; 1] = false /\
+  known_C14 (CFrames (FFrame 4294967295 0 false) [] [] []) = [9] /\
+  run_C14 (CFrames (FFrame 90 90 true) [] [FFrame 45 45 true; FFrame 4294967295 45 false; FFrame 45 45 true] []) = [1; 0; 1; 0; 0; 1] /\
+  run_C14 (CIngest 1000 8210266876800000) = [2; 0] /\ known_C14 (CIngest 1000 8210266876800000) = [10] /\
+  run_C14 (CIngest 1000 8210266876799999) = [0; 1] /\ run_C14 (CIngest 1000 (-5)) = [0; 1].
+Proof. vm_compute. repeat split; reflexivity. Qed.
 
 Lemma clause_witnesses_w :
   aquery_valid w_paged_agg = true /\ known_C14 (CAgg w_paged_agg) = [] /\ run_C14 (CAgg w_paged_agg) = [0; 1] /\
